@@ -2,6 +2,7 @@ package main
 
 import (
 	"fmt"
+	"go/token"
 	"go/types"
 	"sort"
 	"strings"
@@ -372,8 +373,19 @@ func runC16(c *Ctx) {
 			decision[ex(limCall)] = true
 		}
 	}
+	// the decision flag: a bool local of onEventFrame captured by the limiter closure (whatever its name)
+	flagAllocs := map[ssa.Value]bool{}
 	for _, in := range allInstrs(oef) {
-		if u, ok := in.(*ssa.UnOp); ok && strings.HasSuffix(ex(u), "local:request") {
+		if mc, ok := in.(*ssa.MakeClosure); ok && lim != nil && mc.Fn == ssa.Value(lim) {
+			for _, b := range mc.Bindings {
+				if a, ok := b.(*ssa.Alloc); ok && typeStr(a.Type()) == "*bool" {
+					flagAllocs[a] = true
+				}
+			}
+		}
+	}
+	for _, in := range allInstrs(oef) {
+		if u, ok := in.(*ssa.UnOp); ok && u.Op == token.MUL && flagAllocs[u.X] {
 			decision[ex(u)] = true
 		}
 	}
